@@ -25,17 +25,17 @@ PKGDIR = {"ugo_test": ".", "ugo": ".", "encoder_test": "encoder", "encoder": "en
           "fmt_test": "stdlib/fmt", "fmt": "stdlib/fmt", "parser_test": "parser", "parser": "parser", "main": "cmd/ugo", "importers_test": "importers", "importers": "importers", "registry_test": "registry", "registry": "registry"}
 
 
-def confirm(pid, x):
-    src = os.path.join(SRC if x in ("A", "B") else "/tmp/seed2/out", pid, x)
-    out = os.path.join(SEEDED, "%s-%s" % (pid, x))
-    wt = "/tmp/scratch/seed-%s-%s" % (pid, x)
+def confirm(pid, x, srcroot=None, storeas=None, rnd=None):
+    src = os.path.join(srcroot or (SRC if x in ("A", "B") else "/tmp/seed2/out"), pid, x)
+    out = os.path.join(SEEDED, "%s-%s" % (pid, storeas or x))
+    wt = "/tmp/scratch/seed-%s-%s" % (pid, storeas or x)
     os.makedirs("/tmp/scratch", exist_ok=True)
     sh("git -C /repo worktree remove --force %s; rm -rf %s; git -C /repo worktree prune" % (wt, wt))
     rc, o = sh("git -C /repo worktree add --detach %s HEAD" % wt)
     if rc:
         print(o)
         return 2
-    meta = {"property": pid, "variant": x, "source": "independent sub-agent given only the property text and its own scratch worktree (round %d)" % (1 if x in ("A", "B") else 2)}
+    meta = {"property": pid, "variant": x, "source": "independent sub-agent given only the property text and its own scratch worktree (round %s)" % (rnd or (1 if x in ("A", "B") else 2))}
     try:
         head = sh("git rev-parse --short HEAD", cwd=wt)[1].strip()
         meta["confirmed_at_repo_head"] = head
@@ -150,7 +150,7 @@ def table():
 if __name__ == "__main__":
     a = sys.argv[1:]
     if a[0] == "confirm":
-        sys.exit(confirm(a[1], a[2]))
+        sys.exit(confirm(a[1], a[2], *(a[3:6])))
     if a[0] == "try":
         sys.exit(try_(a[1], a[2], *(a[3:4])))
     if a[0] == "table":
